@@ -359,8 +359,8 @@ fn chk_receive(g: &mut Gen) -> Result<(), String> {
     match (&d, &pr) {
         (Ok((t, pl)), Ok((t2, pl2, on))) => {
             if t != t2 || pl != pl2 { return Err(format!("process_packet({}) reports a different type/payload than decode_packet", hex(&p))); }
-            let answerable = *t == 0 && p[9] & 0x80 != 0;
-            if on.is_some() != answerable { return Err(format!("process_packet({}) response={:?} but request={}", hex(&p), on, answerable)); }
+            let answerable = *t == 0 && p[9] & 0x80 != 0 && cmd_answered(p[10]);
+            if on.is_some() != answerable { return Err(format!("process_packet({}) response={:?} but answerable request={}", hex(&p), on, answerable)); }
             match on {
                 None => if rb.iter().any(|b| *b != poison) { return Err(format!("process_packet({}) reported no response but wrote to the response buffer", hex(&p))); },
                 Some(n) => {
@@ -370,6 +370,7 @@ fn chk_receive(g: &mut Gen) -> Result<(), String> {
                     let exp = packet_bytes(p[6], addr, 0, &r[9..n - 1]);
                     if r != &exp[..] { return Err(format!("response {} to {} is not a well-formed packet back to the requester (expected {})", hex(r), hex(&p), hex(&exp))); }
                     if r[9] & 0xE0 != 0 || r[10] != p[10] || *n < 13 { return Err(format!("response {} does not correlate with request {}", hex(r), hex(&p))); }
+                    if r[11] != answer_completion(&p, vids.len()) { return Err(format!("response {} to {} carries completion code {} expected {}", hex(r), hex(&p), r[11], answer_completion(&p, vids.len()))); }
                     if r[9] & 0x1f != p[9] & 0x1f && r[9] & 0x1f != 0 { return Err(format!("response {} carries a foreign instance ID (request {})", hex(r), hex(&p))); }
                     // C13: EID
                     let assign = p[10] == 1 && (p[11] == 0 || p[11] == 1);
@@ -377,11 +378,12 @@ fn chk_receive(g: &mut Gen) -> Result<(), String> {
                     if c.get_request().get_eid() != want_eid || c.get_response().get_eid() != want_eid { return Err(format!("after {} the EID is {}/{} expected {}", hex(&p), c.get_request().get_eid(), c.get_response().get_eid(), want_eid)); }
                     match p[10] {
                         1 if assign => if r[11..15] != [0, 0, p[12], 0] { return Err(format!("Set Endpoint ID answered with {}", hex(r))); },
-                        1 => if r[11] != 2 { return Err(format!("Set Discovered Flag answered with {}", hex(r))); },
+                        1 => if r[11] != 2 || r[13] != e0 || *n != 16 { return Err(format!("Set Endpoint ID with a non-assigning operation answered with {}", hex(r))); },
                         2 => if r[11] != 0 || r[12] != e0 { return Err(format!("Get Endpoint ID answered with {} (EID {})", hex(r), e0)); },
                         3 => if r[11] != 0 || r[12..28] != [0u8; 16] { return Err(format!("Get Endpoint UUID answered with {}", hex(r))); },
                         4 => if r[11..17] != [0, 1, 0xF1, 0xF3, 0xF1, 0x00] { return Err(format!("Get MCTP Version Support answered with {}", hex(r))); },
                         5 => if r[11] != 0 || r[12] as usize != types.len() || r[13..n - 1] != types[..] { return Err(format!("Get Message Type Support answered with {}", hex(r))); },
+                        6 if p[11] as usize >= vids.len() => if r[11..n - 1] != [2u8, 0xFF] { return Err(format!("Get Vendor Defined Message Support with out-of-range selector {} answered with {}", p[11], hex(r))); },
                         6 => {
                             let i = p[11] as usize; let v = &vids[i];
                             let mut f = vec![0u8, if i + 1 == vids.len() { 0xFF } else { (i + 1) as u8 }, v.format];
@@ -468,8 +470,7 @@ fn chk_history(g: &mut Gen) -> Result<(), String> {
             1 => { let u = if g.below(4) == 0 { vec![0u8; 16] } else { g.bytes(16) }; c.set_uuid(&u); model_uuid.copy_from_slice(&u); trace.push(format!("set_uuid({})", hex(&u))); }
             2 => { let p = gen_packet(g); if !decode_known_panic(&p) { let _ = quiet(|| c.decode_packet(&p).map(|x| x.0 as u8)); } trace.push(format!("decode({})", hex(&p))); }
             3 | 4 => {
-                let op = g.below(4) as u8; let eid = 1 + g.u8() % 0xFE; let good = g.below(4) > 0;
-                if op == 2 { continue; }
+                let op = if g.below(6) == 0 { g.u8() } else { g.below(4) as u8 }; let eid = 1 + g.u8() % 0xFE; let good = g.below(4) > 0;
                 let src = g.u8();
                 let mut p = packet_bytes(addr, src, 0, &[0x80, 0x01, op, eid]);
                 if !good { let l = p.len(); p[l - 1] ^= 0x5A; }
@@ -484,7 +485,7 @@ fn chk_history(g: &mut Gen) -> Result<(), String> {
                         return Err(format!("history {:?}: Set Endpoint ID (operation {}) answered with {} which is not a well-formed response back to requester {:#x}", trace, op, hex(&rb[..16]), src));
                     }
                     if (op == 0 || op == 1) && rb[11..15] != [0, 0, eid, 0] { return Err(format!("history {:?}: assignment answered with {}", trace, hex(&rb[..16]))); }
-                    if op == 3 && (rb[11] != 2 || rb[13] != model_eid_s) { return Err(format!("history {:?}: Set Discovered Flag answered with {}", trace, hex(&rb[..16]))); }
+                    if op != 0 && op != 1 && (rb[11] != 2 || rb[13] != model_eid_s) { return Err(format!("history {:?}: Set Endpoint ID with non-assigning operation {} answered with {}", trace, op, hex(&rb[..16]))); }
                 }
             }
             _ => {
@@ -502,8 +503,8 @@ fn chk_history(g: &mut Gen) -> Result<(), String> {
                 match (&d, &pr) {
                     (Ok((t, pl)), Ok((t2, pl2, on))) => {
                         if t != t2 || pl != pl2 { return Err(format!("history {:?}: process_packet reports another type/payload than decoding alone", trace)); }
-                        let answerable = *t == 0 && p[9] & 0x80 != 0;
-                        if on.is_some() != answerable { return Err(format!("history {:?}: response={:?} but the packet is{} an accepted control request", trace, on, if answerable { "" } else { " not" })); }
+                        let answerable = *t == 0 && p[9] & 0x80 != 0 && cmd_answered(p[10]);
+                        if on.is_some() != answerable { return Err(format!("history {:?}: response={:?} but the packet is{} an accepted control request for an answered command", trace, on, if answerable { "" } else { " not" })); }
                         if on.is_none() && rb.iter().any(|b| *b != 0xA5) { return Err(format!("history {:?}: no response reported but the response buffer was written", trace)); }
                     }
                     (Err(e), Err(e2)) => {
